@@ -11,14 +11,17 @@ entered; `ok` iff every command ran and succeeded).
 
 * `C04_full` — for every history, "up to date" implies `goodRun`.  **False** in several
   independent ways, each a `decide`-checked run of the executable model (which mirrors the tree
-  with the timestamp fixes TS1–TS3): `C04_counterexample_kill` (4, both methods:
-  `_kill_timestamp`), `_listjson` (6, for the wiring as found — repaired by F7), `_collision` (7),
-  and what is LEFT of method timestamp's defects: `_timestamp_never_ran`,
-  `_timestamp_failed_generates` / `_timestamp_forced_fail_generates` (a failed run that left a
-  `generates` file behind), `_timestamp_marker_created` (an up-to-date check CREATES a missing
-  marker at the time of the check), `_timestamp_generates_by_others` — all four have one root: with
-  method timestamp an existing `generates` file at least as new as every source makes the task up
-  to date, whatever happened to its last attempt.
+  with the timestamp fixes TS1–TS3, fix M and fix N): `C04_counterexample_kill` (4, both methods:
+  `_kill_timestamp`), `_listjson` (6, for the wiring as found — repaired by F7), `_equal_labels`
+  (what is left of 7: method checksum names its state file after `t.Name()`, the label), and what is
+  LEFT of method timestamp's defects: `_timestamp_never_ran`, `_timestamp_failed_generates` /
+  `_timestamp_forced_fail_generates` (a failed run that left a `generates` file behind),
+  `_timestamp_generates_by_others` — one root: with method timestamp an existing `generates` file
+  at least as new as every source makes the task up to date, whatever happened to its last attempt.
+* (7) REPAIRED by fix N for names that merely normalise alike (`a:b` / `a-b` / `a.b`):
+  `stateKey_inj` (TsLemmas), `C04_collision_fixed`; the hypothesis of `C04_partial` shrinks from
+  "distinct normalised names" to `DisplayDistinct` (distinct `t.Name()` among the checksum tasks),
+  that of `C04_partial_timestamp` to `NamesDistinct` (true of every table).
 * (3) a declined prompt is REPAIRED for both methods (F31: it goes through `statusOnError`; TS3:
   `TimestampChecker.OnError` removes the marker): `C04_prompt_declined_no_entry` /
   `C04_timestamp_declined_no_marker` (the declined run leaves no checksum entry / no marker and
@@ -26,24 +29,26 @@ entered; `ok` iff every command ran and succeeded).
   `C04_prompt_declined_fixed`, `C04_timestamp_prompt_declined_fixed`.
 * (5) REPAIRED by TS3: `C04_timestamp_failed_no_marker` (a run or `--force` run that exits
   `failed` leaves no marker), `C04_timestamp_fail_fixed`; TS1: `C04_timestamp_generates_fixed`
-  (skip ⇒ the generates exist: `C04_timestamp_skip_generates_exist`); TS2:
+  (skip ⇒ the generates exist: `C04_timestamp_skip_generates_exist`); TS2 and fix M:
   `C04_timestamp_uptodate_check_pure` / `C04_timestamp_checks_pure` (a check that ends in "up to
-  date" leaves an existing marker — the whole state — as it was), hence
+  date" changes NOTHING: it neither moves the marker nor creates one), hence
   `C04_timestamp_edit_after_checks_detected` (however many such checks happened, a source written
-  with an mtime after the marker, i.e. after the last run — `C04_timestamp_marker_is_last_run` —
-  is rebuilt), `C04_timestamp_marker_moves_fixed`.
-* `C04_partial` — method checksum, pairwise distinct normalised names, histories of ANY length
+  with an mtime after the marker — the last run, `C04_timestamp_marker_is_last_run` — if there is
+  one, and after every generates file, is rebuilt), `C04_timestamp_marker_moves_fixed`,
+  `C04_timestamp_marker_created_fixed`.
+* `C04_partial` — method checksum, `DisplayDistinct`, histories of ANY length
   made of arbitrary file operations, successful runs, runs failing inside the command loop, runs
   and `--force` runs CANCELLED AT THE PROMPT, `--force`, `--dry`, `--status`,
   `--list[-all] [--json]`, `--summary` (no kill): skip ⇒ goodRun.  Invariant: "stored checksum
   for `t` = h ⇒ the last attempt at `t` with fingerprint h succeeded"; induction over the list of
   steps.
-* `C04_partial_timestamp` — the same histories (tasks of both methods mixed) for a task with
-  method timestamp and NO positive `generates` pattern (`NoPosGenerates`: then the marker alone
-  decides), distinct marker names (`TsKeysDistinct`) and a clock that does not run backwards
-  (`ClockOK`): skip ⇒ goodRun.  Invariant: "a marker `m` of `t` ⇒ the last attempt at `t`
-  succeeded, at a time ≥ `m`".  With a positive `generates` pattern the statement is false
-  (the four counterexamples above).
+* `C04_partial_timestamp_general` — the same histories (tasks of both methods mixed) for ANY task
+  with method timestamp, `NamesDistinct` and a clock that does not run backwards (`ClockOK`):
+  skip ⇒ goodRun ∨ `GenNewer` (an existing `generates` file newer than the marker, or no marker,
+  vouched).  Invariant (needs no condition on `generates` since fix M): "a marker `m` of `t` ⇒ the
+  last attempt at `t` succeeded, at a time ≥ `m`".  `C04_partial_timestamp`: without a positive
+  `generates` pattern (`NoPosGenerates`) simply skip ⇒ goodRun.  `C04_timestamp_with_generates_false`:
+  the disjunct is needed.
 The hash `H` is arbitrary throughout (fingerprints are compared, never inverted).
 -/
 namespace Props.C04
@@ -110,11 +115,27 @@ theorem C04_counterexample_listjson :
     ¬ Bad Cfg.fixed (pj [mk [120] .checksum false 1]) [w0, .inv 0 .listJson (env 10)] 0 (mk [120] .checksum false 1) := by
   decide
 
-/-- (7) `a-b` and `a:b` normalise to the same file name: running one makes the other up to date. -/
-theorem C04_counterexample_collision :
-    Bad Cfg.fixed (pj [mk [97, 45, 98] .checksum false 1, mk [97, 58, 98] .checksum false 1]) [w0, run 0 10] 1
+/-- (7, REPAIRED by fix N) `a-b` and `a:b` normalise to the same name, which was their state file
+name (`oldKey`, the rule before the fix: an OLD-RULE fact, not true of the tree any more); the
+file name now carries a tag of the original name, the two keys differ, and the former witness —
+running `a-b` made `a:b` up to date — is no longer bad. -/
+theorem C04_collision_fixed :
+    ¬ Bad Cfg.fixed (pj [mk [97, 45, 98] .checksum false 1, mk [97, 58, 98] .checksum false 1]) [w0, run 0 10] 1
       (mk [97, 58, 98] .checksum false 1) ∧
-    sumKey (mk [97, 45, 98] .checksum false 1) = sumKey (mk [97, 58, 98] .checksum false 1) := by decide
+    sumKey (mk [97, 45, 98] .checksum false 1) ≠ sumKey (mk [97, 58, 98] .checksum false 1) ∧
+    oldKey (mk [97, 45, 98] .checksum false 1).displayName = oldKey (mk [97, 58, 98] .checksum false 1).displayName := by
+  decide
+
+/-- (7, what is left) method checksum keys the state by `t.Name()` — the LABEL when there is one:
+two tasks with the same label, or a task whose label is another task's name, still share one
+checksum file (method timestamp keys by the task name, which is unique). -/
+theorem C04_counterexample_equal_labels :
+    (let a : Task := { mk [120] .checksum false 1 with label := [76] }
+     let b : Task := { mk [121] .checksum false 1 with label := [76] }
+     Bad Cfg.fixed (pj [a, b]) [w0, run 0 10] 1 b) ∧
+    (let a : Task := mk [120] .checksum false 1
+     let b : Task := { mk [121] .checksum false 1 with label := [120] }
+     Bad Cfg.fixed (pj [a, b]) [w0, run 0 10] 1 b) := by decide
 
 /- method timestamp with a `generates` entry: path 1, written by the first of two commands -/
 private def tg : Task := { mk [120] .timestamp false 1 with generates := [⟨false, [1]⟩], cmds := [⟨[(1, [9])], none⟩] }
@@ -144,12 +165,13 @@ theorem C04_counterexample_timestamp_failed_generates :
 theorem C04_counterexample_timestamp_forced_fail_generates :
     Bad Cfg.fixed (pj [tg2]) [w0, .inv 0 .force { env 10 with failAt := some 1 }] 0 tg2 := by decide
 
-/-- (open; what is left of "the marker is moved by every check") a check that ends in "up to
-date" while NO marker exists (here: after a `--force` run at 10, which does not consult the
-checker) creates it with the time of the check (20): a source whose mtime (15) lies between the
-last run and that check is never rebuilt. -/
-theorem C04_counterexample_timestamp_marker_created :
-    Bad Cfg.fixed (pj [tg]) [w0, .inv 0 .force (env 10), run 0 20, .op (.write 0 [2] 15)] 0 tg := by decide
+/-- (REPAIRED by fix M; was what TS2 left of "the marker is moved by every check") a check that
+ends in "up to date" while no marker exists (here: after a `--force` run at 10) no longer creates
+one: the source written with mtime 15 is compared with the generates file (10) alone and rebuilt —
+the former witness is no longer bad, and no marker exists after the up-to-date check. -/
+theorem C04_timestamp_marker_created_fixed :
+    ¬ Bad Cfg.fixed (pj [tg]) [w0, .inv 0 .force (env 10), run 0 20, .op (.write 0 [2] 15)] 0 tg ∧
+    (runHist Cfg.fixed id (pj [tg]) [w0, .inv 0 .force (env 10), run 0 20] State.empty).1.marks = [] := by decide
 
 /-- (open, same root) the generates file is rewritten by something else (another task, an editor)
 after the source was edited. -/
@@ -168,9 +190,22 @@ theorem C04_full_false : ¬ C04_full Cfg.fixed := by
 section
 variable (H : Bytes → Bytes) (pr : Proj)
 
-/-- pairwise distinct normalised names (of the names the checksum store is keyed by) -/
+/-- pairwise distinct checksum file names among the checksum tasks -/
 def KeysDistinct (pr : Proj) : Prop :=
-  ∀ (i j : Nat) (ti tj : Task), pr.tasks[i]? = some ti → pr.tasks[j]? = some tj → sumKey ti = sumKey tj → i = j
+  ∀ (i j : Nat) (ti tj : Task), pr.tasks[i]? = some ti → pr.tasks[j]? = some tj → Cs ti → Cs tj →
+    sumKey ti = sumKey tj → i = j
+
+/-- **what is left of the hypothesis after fix N**: the checksum tasks have pairwise distinct
+DISPLAY names (`t.Name()`: the label, else the task name).  Task names are distinct in every table;
+this fails only when two checksum tasks carry the same label, or one's label is the other's name
+(`C04_counterexample_equal_labels`).  Distinct display names that merely NORMALISE alike (`a:b`,
+`a-b`, `a.b`) are fine now. -/
+def DisplayDistinct (pr : Proj) : Prop :=
+  ∀ (i j : Nat) (ti tj : Task), pr.tasks[i]? = some ti → pr.tasks[j]? = some tj → Cs ti → Cs tj →
+    ti.displayName = tj.displayName → i = j
+
+theorem keysDistinct_of_display {pr : Proj} (h : DisplayDistinct pr) : KeysDistinct pr :=
+  fun i j ti tj hi hj ci cj hk => h i j ti tj hi hj ci cj (sumKey_inj hk)
 
 /-- steps of the histories covered: any file operation; any invocation (every mode, prompt
 answered yes or declined, any command failing) during which the process is not killed -/
@@ -214,7 +249,7 @@ theorem inv_of_effect (hd : KeysDistinct pr) {s s' : State} (hinv : Inv pr s) {j
     · rw [hk] at hget; cases hget
   · have hji : ¬ (j = i) := fun e => hij e.symm
     simp only [hji, false_and, decide_false, Bool.false_eq_true, if_false]
-    have hne : Cs tj → sumKey t ≠ sumKey tj := fun _ e => hij (hd i j t tj hti htj e)
+    have hne : Cs tj → sumKey t ≠ sumKey tj := fun hcj e => hij (hd i j t tj hti htj hcs hcj e)
     rw [hother _ hne] at hget
     exact hinv i t h hti hcs hget
 
@@ -231,7 +266,7 @@ theorem inv_of_cancel (hd : KeysDistinct pr) {s s' : State} (hinv : Inv pr s) {j
     have htt : t = tj := by rw [hti] at htj; exact Option.some.inj htj
     subst htt
     rw [hkey hcs] at hget; cases hget
-  · have hne : Cs tj → sumKey t ≠ sumKey tj := fun _ e => hij (hd i j t tj hti htj e)
+  · have hne : Cs tj → sumKey t ≠ sumKey tj := fun hcj e => hij (hd i j t tj hti htj hcs hcj e)
     rw [hother _ hne] at hget
     exact hinv i t h hti hcs hget
 
@@ -353,16 +388,17 @@ theorem inv_hist (hd : KeysDistinct pr) (hist : List Step) (s : State) (ha : ∀
     simp only [runHist]
     exact ih _ (fun x hx => ha x (by simp [hx])) (inv_step H pr hd st s (ha st (by simp)) hinv)
 
-/-- **C04_partial**: for a task fingerprinted with method checksum, in a project whose tasks have
-pairwise distinct normalised names, after ANY history of allowed steps (no bound on its length;
+/-- **C04_partial**: for a task fingerprinted with method checksum, in a project whose checksum tasks
+have pairwise distinct display names (since fix N they need not normalise differently: `a:b`, `a-b`
+and `a.b` have three state files), after ANY history of allowed steps (no bound on its length;
 since F31 this includes runs cancelled at the prompt): if a run reports the task up to date then
 `goodRun` holds. -/
-theorem C04_partial (hd : KeysDistinct pr) (hist : List Step) (ha : ∀ st ∈ hist, Allowed st)
+theorem C04_partial (hd : DisplayDistinct pr) (hist : List Step) (ha : ∀ st ∈ hist, Allowed st)
     (i : Nat) (t : Task) (e : Env) (ht : pr.tasks[i]? = some t) (hm : t.method = .checksum)
     (hsrc : t.sources.isEmpty = false)
     (hskip : (invoke Cfg.fixed H pr i .run e (runHist Cfg.fixed H pr hist State.empty).1).2.skipped = true) :
     goodRun H pr i t (runHist Cfg.fixed H pr hist State.empty).1 = true := by
-  have hinv := inv_hist H pr hd hist State.empty ha (inv_empty pr)
+  have hinv := inv_hist H pr (keysDistinct_of_display hd) hist State.empty ha (inv_empty pr)
   generalize (runHist Cfg.fixed H pr hist State.empty).1 = s at *
   have hup := run_skipped Cfg.fixed H pr ht e s hskip
   rw [isUpToDate_sources H pr hsrc] at hup
@@ -481,15 +517,15 @@ theorem C04_timestamp_skip_generates_exist (cfg : Cfg) {i : Nat} {t : Task} (ht 
     (e : Env) (s : State) (hsk : (invoke cfg H pr i .run e s).2.skipped = true) : gensOk t s.files = true :=
   ((tsUp_iff t s).mp (tsUp_of_upToDate H pr hts false e.now s (run_skipped cfg H pr ht e s hsk))).2.2
 
-/-- **an up-to-date check is pure** (TS2): a run of a timestamp task that is reported up to date
-while its marker exists changes NOTHING — in particular not the marker's mtime. -/
+/-- **an up-to-date check is pure** (TS2 + fix M): a run of a timestamp task that is reported up to
+date changes NOTHING AT ALL — it neither moves the marker nor (fix M) creates one. -/
 theorem C04_timestamp_uptodate_check_pure (cfg : Cfg) {i : Nat} {t : Task} (ht : pr.tasks[i]? = some t) (hts : Ts t)
-    (e : Env) (s : State) (hmk : (aget s.marks (tsKey t)).isSome = true)
+    (e : Env) (s : State)
     (hsk : (invoke cfg H pr i .run e s).2.skipped = true) : (invoke cfg H pr i .run e s).1 = s := by
   have hup := run_skipped cfg H pr ht e s hsk
   have hts' := tsUp_of_upToDate H pr hts false e.now s hup
   rw [invoke_run cfg H pr ht, if_pos hup, isUpToDate_ts H pr hts]
-  exact tsCheck_upToDate_pure t false e.now s hmk (by rw [tsCheck_result]; exact hts')
+  exact tsCheck_upToDate_pure t false e.now s (by rw [tsCheck_result]; exact hts')
 
 /-- a sequence of runs of task `i` -/
 def checks (i : Nat) (es : List Env) : List Step := es.map (fun e => Step.inv i .run e)
@@ -503,13 +539,13 @@ instance (obs : List (Option Obs)) : Decidable (AllSkipped obs) := by unfold All
 /-- … **however many of them**: any number of runs that are all reported up to date leave the state
 (the marker) exactly as it was. -/
 theorem C04_timestamp_checks_pure (cfg : Cfg) {i : Nat} {t : Task} (ht : pr.tasks[i]? = some t) (hts : Ts t)
-    (es : List Env) (s : State) (hmk : (aget s.marks (tsKey t)).isSome = true)
+    (es : List Env) (s : State)
     (hall : AllSkipped (runHist cfg H pr (checks i es) s).2) : (runHist cfg H pr (checks i es) s).1 = s := by
   induction es with
   | nil => rfl
   | cons e es ih =>
     simp only [checks, List.map_cons, runHist, step, AllSkipped, List.all_cons, Bool.and_eq_true] at hall ⊢
-    have hpure := C04_timestamp_uptodate_check_pure H pr cfg ht hts e s hmk hall.1
+    have hpure := C04_timestamp_uptodate_check_pure H pr cfg ht hts e s hall.1
     rw [hpure] at hall ⊢
     exact ih hall.2
 
@@ -527,19 +563,21 @@ theorem C04_timestamp_marker_is_last_run (cfg : Cfg) {i : Nat} {t : Task} (ht : 
   exact tsCheck_stored t e.now s (by rw [tsCheck_result]; exact hno)
 
 /-- **an edit after the last run is detected, whatever was checked in between** (the precise
-statement TS2 makes true): let the marker of `t` be `m` (the time of its last run), let any number of
-runs follow that are all reported up to date, then let a source `p` (matched by `t`'s `sources`) be
-written with an mtime `mt > m` that is also newer than every existing `generates` file.  The next
-run is NOT skipped.  (Before TS2 the checks in between had moved the marker past `mt`:
-`C04_timestamp_marker_moves_fixed`.) -/
+statement TS2 and fix M make true): let any number of runs happen that are all reported up to date,
+then let a source `p` (matched by `t`'s `sources`) be written with an mtime `mt` that is newer than
+the marker — the time of `t`'s last run — IF THERE IS ONE, and newer than every existing
+`generates` file.  The next run is NOT skipped.  (Before TS2 the checks in between had moved the
+marker past `mt`: `C04_timestamp_marker_moves_fixed`; before fix M they had created one at their
+own time when there was none: `C04_timestamp_marker_created_fixed`.) -/
 theorem C04_timestamp_edit_after_checks_detected (cfg : Cfg) {i : Nat} {t : Task} (ht : pr.tasks[i]? = some t)
-    (hts : Ts t) (es : List Env) (s : State) (m : Nat) (hmk : aget s.marks (tsKey t) = some m)
+    (hts : Ts t) (es : List Env) (s : State)
     (hall : AllSkipped (runHist cfg H pr (checks i es) s).2)
-    (p : Path) (c : Bytes) (mt : Nat) (hp : lastFlag t.sources p = some true) (hmt : m < mt)
+    (p : Path) (c : Bytes) (mt : Nat) (hp : lastFlag t.sources p = some true) (hpos : 0 < mt)
+    (hmt : ∀ m, aget s.marks (tsKey t) = some m → m < mt)
     (hgen : ∀ g ∈ globs (nowPats t.generates (aset s.files p ⟨c, mt⟩)), mtimeOf (aset s.files p ⟨c, mt⟩) g < mt)
     (e : Env) :
     (invoke cfg H pr i .run e (applyOp pr (.write p c mt) (runHist cfg H pr (checks i es) s).1)).2.skipped = false := by
-  rw [C04_timestamp_checks_pure H pr cfg ht hts es s (by rw [hmk]; rfl) hall]
+  rw [C04_timestamp_checks_pure H pr cfg ht hts es s hall]
   have hfiles : (applyOp pr (.write p c mt) s).files = aset s.files p ⟨c, mt⟩ := rfl
   have hmarks : (applyOp pr (.write p c mt) s).marks = s.marks := rfl
   generalize applyOp pr (.write p c mt) s = s' at hfiles hmarks
@@ -549,13 +587,15 @@ theorem C04_timestamp_edit_after_checks_detected (cfg : Cfg) {i : Nat} {t : Task
     · rw [mem_srcsNow, hfiles, ahas_aset]; simp [hp]
     · intro x hx
       unfold tsGts at hx
-      rw [hmarks, hmk, hfiles] at hx
+      rw [hmarks, hfiles] at hx
       rw [hmt']
-      simp only [List.mem_append, List.mem_map, List.mem_singleton] at hx
-      rcases hx with ⟨g, hg, rfl⟩ | rfl
+      simp only [List.mem_append, List.mem_map] at hx
+      rcases hx with ⟨g, hg, rfl⟩ | hx
       · exact hgen g hg
-      · exact hmt
-    · rw [hmt']; omega
+      · cases hmk : aget s.marks (tsKey t) with
+        | none => simp [hmk] at hx
+        | some m => simp only [hmk, List.mem_singleton] at hx; subst hx; exact hmt _ hmk
+    · rw [hmt']; exact hpos
   cases hsk : (invoke cfg H pr i .run e s').2.skipped with
   | false => rfl
   | true =>
@@ -568,6 +608,15 @@ theorem C04_timestamp_edit_after_checks_detected (cfg : Cfg) {i : Nat} {t : Task
 def TsKeysDistinct (pr : Proj) : Prop :=
   ∀ (i j : Nat) (ti tj : Task), pr.tasks[i]? = some ti → pr.tasks[j]? = some tj → Ts ti → Ts tj →
     tsKey ti = tsKey tj → i = j
+
+/-- the task names of the table are pairwise distinct — true of every table the loader produces (a
+second definition of a name is a load error, C08); it is all that is left of `TsKeysDistinct`
+after fix N: the marker is named after the task name, and `stateKey` is injective -/
+def NamesDistinct (pr : Proj) : Prop :=
+  ∀ (i j : Nat) (ti tj : Task), pr.tasks[i]? = some ti → pr.tasks[j]? = some tj → ti.name = tj.name → i = j
+
+theorem tsKeysDistinct_of_names {pr : Proj} (h : NamesDistinct pr) : TsKeysDistinct pr :=
+  fun i j ti tj hi hj _ _ hk => h i j ti tj hi hj (tsKey_inj hk)
 
 /-- the clock of the invocations does not run backwards (`c` = the time of the latest invocation
 so far); file operations may carry any mtime -/
@@ -618,7 +667,7 @@ theorem invTs_body {i : Nat} {t : Task} (hts : Ts t) (e : Env) (hk : e.killAt = 
 
 /-- every allowed step keeps the invariant (the clock moves to the time of the invocation) -/
 theorem invTs_step (hd : TsKeysDistinct pr) {i : Nat} {t : Task} (ht : pr.tasks[i]? = some t) (hts : Ts t)
-    (hng : NoPosGenerates t) (c : Nat) (s : State) (hinv : InvTs i t c s) :
+    (c : Nat) (s : State) (hinv : InvTs i t c s) :
     (∀ o, InvTs i t c (step Cfg.fixed H pr (.op o) s).1) ∧
     (∀ j m e, e.killAt = none → c ≤ e.now → InvTs i t e.now (step Cfg.fixed H pr (.inv j m e) s).1) := by
   constructor
@@ -655,16 +704,15 @@ theorem invTs_step (hd : TsKeysDistinct pr) {i : Nat} {t : Task} (ht : pr.tasks[
             split
             · rename_i hup
               have hup' := tsUp_of_upToDate H pr hts false e.now s hup
-              obtain ⟨m0, hm0, _⟩ := (tsUp_noPos hng s).mp hup'
               have hpure : (isUpToDate H pr tj false e.now s).1 = s := by
                 rw [isUpToDate_ts H pr hts]
-                exact tsCheck_upToDate_pure tj false e.now s (by rw [hm0]; rfl) (by rw [tsCheck_result]; exact hup')
+                exact tsCheck_upToDate_pure tj false e.now s (by rw [tsCheck_result]; exact hup')
               simp only [hpure]; exact hinv'
             · apply invTs_body H pr hts e hk
               intro m hm
               rw [isUpToDate_ts H pr hts] at hm
               simp only at hm
-              rcases tsCheck_marker_after tj e.now s with h | ⟨_, hs, _⟩
+              rcases tsCheck_marker_after tj e.now s with h | ⟨_, hs⟩
               · rw [h] at hm; cases hm; exact Nat.le_refl _
               · rw [hs] at hm; exact hle m hm
           | dry => simp [Mode.readOnly] at hro
@@ -685,13 +733,13 @@ theorem invTs_step (hd : TsKeysDistinct pr) {i : Nat} {t : Task} (ht : pr.tasks[
 
 /-- … hence every allowed history with a clock that does not run backwards does -/
 theorem invTs_hist (hd : TsKeysDistinct pr) {i : Nat} {t : Task} (ht : pr.tasks[i]? = some t) (hts : Ts t)
-    (hng : NoPosGenerates t) (hist : List Step) (c : Nat) (s : State) (ha : ∀ st ∈ hist, Allowed st)
+    (hist : List Step) (c : Nat) (s : State) (ha : ∀ st ∈ hist, Allowed st)
     (hclk : ClockOK c hist) (hinv : InvTs i t c s) : ∃ c', InvTs i t c' (runHist Cfg.fixed H pr hist s).1 := by
   induction hist generalizing c s with
   | nil => exact ⟨c, hinv⟩
   | cons st rest ih =>
     simp only [runHist]
-    have hstep := invTs_step H pr hd ht hts hng c s hinv
+    have hstep := invTs_step H pr hd ht hts c s hinv
     cases st with
     | op o => exact ih c _ (fun x hx => ha x (by simp [hx])) hclk (hstep.1 o)
     | inv j m e =>
@@ -699,26 +747,85 @@ theorem invTs_hist (hd : TsKeysDistinct pr) {i : Nat} {t : Task} (ht : pr.tasks[
       simp only [ClockOK, clockOK, Bool.and_eq_true, decide_eq_true_eq] at hclk
       exact ih e.now _ (fun x hx => ha x (by simp [hx])) hclk.2 (hstep.2 j m e hk hclk.1)
 
-/-- **C04_partial_timestamp**: for a task fingerprinted with method timestamp that has no positive
-`generates` pattern, in a project whose timestamp tasks have pairwise distinct marker names, after
-ANY history of allowed steps (tasks of both methods, successful / failing / cancelled runs,
-`--force`, the read-only modes, arbitrary file operations; no kill) whose invocations carry a
-non-decreasing clock: if a run reports the task up to date then `goodRun` holds. -/
-theorem C04_partial_timestamp (hd : TsKeysDistinct pr) (hist : List Step) (ha : ∀ st ∈ hist, Allowed st)
+/-- some existing `generates` file is newer than the marker (or there is no marker) -/
+def GenNewer (t : Task) (s : State) : Prop :=
+  ∃ g ∈ globs (nowPats t.generates s.files), ∀ m, aget s.marks (tsKey t) = some m → m < mtimeOf s.files g
+
+theorem exists_ge_of_le_foldl_max (l : List Nat) (a x : Nat) (h : x ≤ l.foldl Nat.max a) : x ≤ a ∨ ∃ y ∈ l, x ≤ y := by
+  induction l generalizing a with
+  | nil => exact Or.inl h
+  | cons b l ih =>
+    simp only [List.foldl_cons] at h
+    rcases ih _ h with h1 | ⟨y, hy, hxy⟩
+    · by_cases hab : x ≤ a
+      · exact Or.inl hab
+      · right; refine ⟨b, by simp, ?_⟩
+        have : Nat.max a b = a ∨ Nat.max a b = b := by
+          by_cases hle : a ≤ b
+          · exact Or.inr (Nat.max_eq_right hle)
+          · exact Or.inl (Nat.max_eq_left (Nat.le_of_not_le hle))
+        rcases this with e | e <;> rw [e] at h1
+        · exact absurd h1 hab
+        · exact h1
+    · exact Or.inr ⟨y, by simp [hy], hxy⟩
+
+/-- **C04_partial_timestamp_general** (every timestamp task, with or without `generates`): in a
+project with pairwise distinct task names, after ANY history of allowed steps (tasks of both
+methods, successful / failing / cancelled runs, `--force`, the read-only modes, arbitrary file
+operations; no kill) whose invocations carry a non-decreasing clock: if a run reports the task up
+to date then `goodRun` holds — OR an existing `generates` file, newer than the marker, vouched
+(`GenNewer`: the one root of the open timestamp findings).  Since fix M the invariant "a marker
+⇒ the last attempt succeeded, not before it" needs no condition on `generates` any more. -/
+theorem C04_partial_timestamp_general (hd : NamesDistinct pr) (hist : List Step) (ha : ∀ st ∈ hist, Allowed st)
+    (hclk : ClockOK 0 hist) (i : Nat) (t : Task) (e : Env) (ht : pr.tasks[i]? = some t) (hm : t.method = .timestamp)
+    (hsrc : t.sources.isEmpty = false)
+    (hskip : (invoke Cfg.fixed H pr i .run e (runHist Cfg.fixed H pr hist State.empty).1).2.skipped = true) :
+    goodRun H pr i t (runHist Cfg.fixed H pr hist State.empty).1 = true ∨
+    GenNewer t (runHist Cfg.fixed H pr hist State.empty).1 := by
+  have hts : Ts t := ⟨hm, hsrc⟩
+  obtain ⟨c, hinv⟩ := invTs_hist H pr (tsKeysDistinct_of_names hd) ht hts hist 0 State.empty ha hclk (invTs_empty i t 0)
+  generalize (runHist Cfg.fixed H pr hist State.empty).1 = s at *
+  have hup := tsUp_of_upToDate H pr hts false e.now s (run_skipped Cfg.fixed H pr ht e s hskip)
+  obtain ⟨hne, hle, hge⟩ := (tsUp_iff t s).mp hup
+  cases hmk : aget s.marks (tsKey t) with
+  | none =>
+    right
+    unfold tsGts at hne
+    simp only [hmk, List.append_nil] at hne
+    cases hg : globs (nowPats t.generates s.files) with
+    | nil => simp [hg] at hne
+    | cons g gs => exact ⟨g, by rw [hg]; simp, fun m hm' => by rw [hmk] at hm'; cases hm'⟩
+  | some m =>
+    by_cases hex : ∃ p, p ∈ srcsNow t s.files ∧ m < mtimeOf s.files p
+    · right
+      obtain ⟨p, hp, hlt⟩ := hex
+      have hpm := hle p hp
+      unfold tsGts maxOf at hpm
+      rw [hmk] at hpm
+      rcases exists_ge_of_le_foldl_max _ 0 _ hpm with h0 | ⟨y, hy, hxy⟩
+      · omega
+      · simp only [List.mem_append, List.mem_map, List.mem_singleton] at hy
+        rcases hy with ⟨g, hg, rfl⟩ | rfl
+        · exact ⟨g, hg, fun m' hm' => by rw [hmk] at hm'; cases hm'; omega⟩
+        · omega
+    · left
+      obtain ⟨_, a, ha1, ha2, ha3⟩ := hinv m hmk
+      unfold goodRun
+      simp only [hm, hge, ha1, ha2, Bool.true_and, List.all_eq_true, decide_eq_true_eq]
+      intro p hp
+      have : mtimeOf s.files p ≤ m := Nat.le_of_not_lt (fun hlt => hex ⟨p, hp, hlt⟩)
+      exact Nat.le_trans this ha3
+
+/-- **C04_partial_timestamp**: … and for a task without a positive `generates` pattern (then the
+marker alone decides) simply: skip ⇒ `goodRun`. -/
+theorem C04_partial_timestamp (hd : NamesDistinct pr) (hist : List Step) (ha : ∀ st ∈ hist, Allowed st)
     (hclk : ClockOK 0 hist) (i : Nat) (t : Task) (e : Env) (ht : pr.tasks[i]? = some t) (hm : t.method = .timestamp)
     (hsrc : t.sources.isEmpty = false) (hng : NoPosGenerates t)
     (hskip : (invoke Cfg.fixed H pr i .run e (runHist Cfg.fixed H pr hist State.empty).1).2.skipped = true) :
     goodRun H pr i t (runHist Cfg.fixed H pr hist State.empty).1 = true := by
-  have hts : Ts t := ⟨hm, hsrc⟩
-  obtain ⟨c, hinv⟩ := invTs_hist H pr hd ht hts hng hist 0 State.empty ha hclk (invTs_empty i t 0)
-  generalize (runHist Cfg.fixed H pr hist State.empty).1 = s at *
-  have hup := tsUp_of_upToDate H pr hts false e.now s (run_skipped Cfg.fixed H pr ht e s hskip)
-  obtain ⟨m, hmk, hle⟩ := (tsUp_noPos hng s).mp hup
-  obtain ⟨_, a, ha1, ha2, ha3⟩ := hinv m hmk
-  unfold goodRun
-  simp only [hm, (noPos_gens hng s.files).2, ha1, ha2, Bool.true_and, List.all_eq_true, decide_eq_true_eq]
-  intro p hp
-  exact Nat.le_trans (hle p hp) ha3
+  rcases C04_partial_timestamp_general H pr hd hist ha hclk i t e ht hm hsrc hskip with h | ⟨g, hg, _⟩
+  · exact h
+  · rw [(noPos_gens hng _).1] at hg; cases hg
 
 end
 
@@ -726,8 +833,8 @@ end
 run cancelled at the prompt, `--force`, `--dry`, `--status`, `--list --json`) on a project with
 distinct names, after which the task IS skipped — and, as the theorem says, `goodRun` holds. -/
 example :
-    let t := mk [120] .checksum false 2
-    let pr := pj [t, mk [121] .checksum true 1]
+    let t := mk [97, 45, 98] .checksum false 2
+    let pr := pj [t, mk [97, 58, 98] .checksum true 1]
     let hist : List Step := [w0, .inv 0 .run { env 10 with failAt := some 1 }, .inv 0 .dry (env 20), .inv 0 .status (env 30),
       .inv 0 .listJson (env 40), .inv 1 .run { env 45 with yes := false }, run 0 50, .inv 1 .force (env 60), .op (.touch 0 70)]
     (∀ st ∈ hist, Allowed st) ∧
@@ -747,20 +854,22 @@ example :
     Cs t ∧ Declined t e ∧ (invoke Cfg.fixed id (pj [t]) 0 .run e s).2.skipped = false ∧
     (isUpToDate id (pj [t]) t false 10 s).1.sums ≠ [] ∧ (invoke Cfg.fixed id (pj [t]) 0 .run e s).1.sums = [] := by decide
 
-example : KeysDistinct (pj [mk [120] .checksum false 2, mk [121] .checksum true 1]) := by
-  intro i j ti tj hi hj hk
+/-- the hypothesis left after fix N holds of the project of the example: `a-b` and `a:b` — which
+NORMALISE to one name and shared one checksum file before the fix — have distinct display names -/
+example : DisplayDistinct (pj [mk [97, 45, 98] .checksum false 2, mk [97, 58, 98] .checksum true 1]) := by
+  intro i j ti tj hi hj _ _ hk
   match i, j with
   | 0, 0 => rfl
   | 1, 1 => rfl
-  | 0, 1 => simp [pj] at hi hj; subst hi hj; simp [sumKey, mk, normalize, Task.displayName, keepChar] at hk
-  | 1, 0 => simp [pj] at hi hj; subst hi hj; simp [sumKey, mk, normalize, Task.displayName, keepChar] at hk
+  | 0, 1 => simp [pj] at hi hj; subst hi hj; simp [mk, Task.displayName] at hk
+  | 1, 0 => simp [pj] at hi hj; subst hi hj; simp [mk, Task.displayName] at hk
   | i + 2, _ => simp [pj] at hi
   | 0, j + 2 => simp [pj] at hj
   | 1, j + 2 => simp [pj] at hj
 
 /-- the statement of `C04_partial_timestamp` WITHOUT the side condition on `generates` -/
 def C04_timestamp_with_generates : Prop :=
-  ∀ (H : Bytes → Bytes) (pr : Proj), TsKeysDistinct pr → ∀ (hist : List Step), (∀ st ∈ hist, Allowed st) → ClockOK 0 hist →
+  ∀ (H : Bytes → Bytes) (pr : Proj), NamesDistinct pr → ∀ (hist : List Step), (∀ st ∈ hist, Allowed st) → ClockOK 0 hist →
     ∀ (i : Nat) (t : Task) (e : Env), pr.tasks[i]? = some t → t.method = .timestamp → t.sources.isEmpty = false →
       (invoke Cfg.fixed H pr i .run e (runHist Cfg.fixed H pr hist State.empty).1).2.skipped = true →
       goodRun H pr i t (runHist Cfg.fixed H pr hist State.empty).1 = true
@@ -769,8 +878,8 @@ def C04_timestamp_with_generates : Prop :=
 theorem C04_timestamp_with_generates_false : ¬ C04_timestamp_with_generates := by
   intro h
   have hb := C04_counterexample_timestamp_never_ran
-  have hd : TsKeysDistinct (pj [tg]) := by
-    intro i j ti tj hi hj _ _ _
+  have hd : NamesDistinct (pj [tg]) := by
+    intro i j ti tj hi hj _
     match i, j with
     | 0, 0 => rfl
     | i + 1, _ => simp [pj] at hi
@@ -844,19 +953,34 @@ example :
   simp only [List.mem_cons, List.not_mem_nil, or_false] at hst
   rcases hst with h | h | h | h | h | h | h | h | h | h | h <;> subst h <;> simp [Allowed, w0, run, env]
 
-example : TsKeysDistinct (pj [mk [120] .timestamp false 2, mk [121] .timestamp true 1, mk [122] .checksum false 1]) := by
-  intro i j ti tj hi hj hti htj hk
+example : NamesDistinct (pj [mk [120] .timestamp false 2, mk [121] .timestamp true 1, mk [122] .checksum false 1]) := by
+  intro i j ti tj hi hj hk
   match i, j with
   | 0, 0 => rfl
   | 1, 1 => rfl
   | 2, 2 => rfl
-  | 0, 1 => simp [pj] at hi hj; subst hi hj; simp [tsKey, mk, normalize, keepChar] at hk
-  | 1, 0 => simp [pj] at hi hj; subst hi hj; simp [tsKey, mk, normalize, keepChar] at hk
-  | 2, _ => simp [pj] at hi; subst hi; exact absurd hti.1 (by simp [mk])
-  | 0, 2 => simp [pj] at hj; subst hj; exact absurd htj.1 (by simp [mk])
-  | 1, 2 => simp [pj] at hj; subst hj; exact absurd htj.1 (by simp [mk])
+  | 0, 1 => simp [pj] at hi hj; subst hi hj; simp [mk] at hk
+  | 1, 0 => simp [pj] at hi hj; subst hi hj; simp [mk] at hk
+  | 0, 2 => simp [pj] at hi hj; subst hi hj; simp [mk] at hk
+  | 2, 0 => simp [pj] at hi hj; subst hi hj; simp [mk] at hk
+  | 1, 2 => simp [pj] at hi hj; subst hi hj; simp [mk] at hk
+  | 2, 1 => simp [pj] at hi hj; subst hi hj; simp [mk] at hk
   | i + 3, _ => simp [pj] at hi
   | 0, j + 3 => simp [pj] at hj
   | 1, j + 3 => simp [pj] at hj
+  | 2, j + 3 => simp [pj] at hj
+
+/-- `C04_partial_timestamp_general` on a task WITH generates: the history of the never-ran witness
+ends in a skip without `goodRun`, and `GenNewer` holds (no marker, the generates file exists) -/
+example :
+    (invoke Cfg.fixed id (pj [tg]) 0 .run (env 99)
+      (runHist Cfg.fixed id (pj [tg]) [w0, .op (.write 1 [8] 7)] State.empty).1).2.skipped = true ∧
+    goodRun id (pj [tg]) 0 tg (runHist Cfg.fixed id (pj [tg]) [w0, .op (.write 1 [8] 7)] State.empty).1 = false ∧
+    GenNewer tg (runHist Cfg.fixed id (pj [tg]) [w0, .op (.write 1 [8] 7)] State.empty).1 := by
+  refine ⟨by decide, by decide, 1, by decide, ?_⟩
+  intro m hm
+  have h0 : aget (runHist Cfg.fixed id (pj [tg]) [w0, .op (.write 1 [8] 7)] State.empty).1.marks (tsKey tg) = none := by
+    decide
+  rw [h0] at hm; cases hm
 
 end Props.C04
